@@ -524,12 +524,16 @@ type requestSender struct {
 
 func (r *requestSender) Send(writer io.Writer) error {
 	switch frm := r.request.Frame().(type) {
+	// The frame belongs to the request and a request that is retried can be in the hands of two connections' writers
+	// at the same time, so it's never written to: a copy with its own header gets this connection's stream ID.
 	case *frame.Frame:
-		frm.Header.StreamId = r.stream
-		return r.conn.rawCodec().EncodeFrame(frm, writer)
+		cpy := &frame.Frame{Header: frm.Header.DeepCopy(), Body: frm.Body}
+		cpy.Header.StreamId = r.stream
+		return r.conn.rawCodec().EncodeFrame(cpy, writer)
 	case *frame.RawFrame:
-		frm.Header.StreamId = r.stream
-		return r.conn.rawCodec().EncodeRawFrame(frm, writer)
+		cpy := copyRawFrame(frm)
+		cpy.Header.StreamId = r.stream
+		return r.conn.rawCodec().EncodeRawFrame(cpy, writer)
 	default:
 		return errors.New("unhandled frame type")
 	}
